@@ -216,6 +216,10 @@ Cb == /\ Is("Cb") /\ call.active /\ Ev.obj = call.obj
                        !.lastUB = IF step = "UpperBound" THEN c ELSE @, !.hasUB = @ \/ step = "UpperBound"]
       /\ l' = l + 1 /\ UNCHANGED <<run, scen, params, base, hist, expect>>
 
+\* more callbacks than any callback grammar allows (the harness stops logging them)
+CbFlood == /\ Is("CbFlood") /\ call.active
+           /\ fails' = {F("C10", <<"more than a thousand callbacks in one call", call.stage>>, "grammar-flood")}
+           /\ l' = l + 1 /\ UNCHANGED <<run, scen, params, base, objs, call, hist, expect>>
 CbThrow == /\ Is("CbThrow") /\ call.active
            /\ call' = [call EXCEPT !.thrower = "callback"]
            /\ fails' = {}
@@ -452,7 +456,7 @@ ParamCheck == /\ Is("ParamCheck")
 
 ParamSetEv == /\ Is("ParamSet") /\ fails' = ParamSetFails(Ev)
               /\ l' = l + 1 /\ UNCHANGED <<run, scen, params, base, objs, call, hist, expect>>
-Next == ParamSetEv \/ HpwlScale \/ FreeUse \/ ApiEv \/ PassEv \/ PassThrow \/ RoundTrip \/ ExportEv \/ BindEv \/ ExpandEv \/ GridEv \/ SolveEv \/ Schedule \/ HarnessError \/ ExpectReject \/ ParamsCtor \/ ParamCheck \/ Rebase \/ FreeEv \/ Incr \/ Reset \/ Begin \/ Cb \/ CbThrow \/ EndReturn \/ EndThrow \/ BadFate \/ Setter
+Next == CbFlood \/ ParamSetEv \/ HpwlScale \/ FreeUse \/ ApiEv \/ PassEv \/ PassThrow \/ RoundTrip \/ ExportEv \/ BindEv \/ ExpandEv \/ GridEv \/ SolveEv \/ Schedule \/ HarnessError \/ ExpectReject \/ ParamsCtor \/ ParamCheck \/ Rebase \/ FreeEv \/ Incr \/ Reset \/ Begin \/ Cb \/ CbThrow \/ EndReturn \/ EndThrow \/ BadFate \/ Setter
 Spec == Init /\ [][Next]_vars
 
 ---------------------------------------------------------------------------
